@@ -1,7 +1,7 @@
 (* C12 — A completed rebalance assigns each partition to exactly one subscriber.
    Only statements closed by [exact]; proofs live in proofs/CoordinatorProofs.v.
    The model is of JoinGroup WITH fixes/C12-rejoin-changed-subscription.patch. *)
-From KS Require Import lib.Base model.Coordinator model.CoordinatorFaults proofs.CoordinatorBase proofs.CoordinatorProofs proofs.CoordinatorTrace proofs.CoordinatorFaults.
+From KS Require Import lib.Base model.Coordinator model.CoordinatorFaults proofs.CoordinatorBase proofs.CoordinatorProofs proofs.CoordinatorTrace proofs.CoordinatorFaults proofs.CoordinatorFinal.
 Open Scope Z_scope.
 
 (* (1) For every history (joins, syncs, heartbeats, leaves, commits, cleanup ticks at any
@@ -55,6 +55,33 @@ Theorem C12_assignment_partition_under_store_faults : forall E h mid gen now f s
             is_partition E g.
 Proof. intros E h. intros. eapply c12f_assignment_partition; [apply runf_inv2|eassumption]. Qed.
 Print Assumptions C12_assignment_partition_under_store_faults.
+
+(* (1g) across a failover, under store faults: when the last whole-group write succeeded
+       ([synced]) a member of a Stable generation that syncs with the successor (load and
+       write of that sync succeed) receives exactly the assignment it had, the successor's
+       group has the same generation / members / subscriptions / assignments and is a
+       partition *)
+Theorem C12_assignment_after_failover_under_store_faults : forall E h f mid now n0 g,
+  synced E (runf E h) -> cur (runf E h) n0 = Some g -> g_phase g = PStable -> In mid (keys g) ->
+  f_load f = false -> f_persist f = false ->
+  exists s' g', stepf E (failover (runf E h)) (Sync mid (g_gen g) now) f =
+                  (s', Some (RSync NONE (assignment_of g mid))) /\
+                s_mem s' = Some g' /\ g_gen g' = g_gen g /\ same_view g g' /\ is_partition E g'.
+Proof. intros E h f mid now n0 g. apply c12f_assignment_after_failover. apply runf_inv2. Qed.
+Print Assumptions C12_assignment_after_failover_under_store_faults.
+
+(* (1g') the hypothesis is necessary: member 2 joins and the group rebalances to generation 2
+       (member 1 then holds partition 0 only) but every write since generation 1 fails; after
+       the failover the successor refuses member 1's sync of generation 2 and hands out the
+       generation-1 assignment (both partitions) instead *)
+Theorem C12_assignment_after_failover_needs_synced :
+  let s := runf wE w12 in
+  ~ synced wE s /\
+  option_map (fun g => (g_phase g, g_gen g, zmem 1 (keys g), assignment_of g 1)) (cur s 3) = Some (PStable, 2, true, [(0, [0])]) /\
+  snd (stepf wE (failover s) (Sync 1 2 4) ok) = Some (RSync ILLEGAL_GENERATION []) /\
+  snd (stepf wE (failover s) (Sync 1 1 4) ok) = Some (RSync NONE [(0, [0; 1])]).
+Proof. exact c12_needs_synced. Qed.
+Print Assumptions C12_assignment_after_failover_needs_synced.
 
 (* the assignment function itself, for any member/subscription map with distinct ids *)
 Theorem C12_round_robin_unique : forall E sm a b t psa psb p,
